@@ -7,6 +7,7 @@ Line-protocol driver for the quote model (C13).  A quote's signed fields are ten
 * `bytes F`                                          → hex of `bytes_for_signing`
 * `verify <claimed> <pubkey> <signer> F_signed F_presented` → `true|false`
 * `pair <pubkey> <signer> F_signed F_1 F_2`          → `<verify 1> <verify 2> <same hash input>`
+* `qhash <pubkey hex> <signature hex> F`              → hex of `PaymentQuote::hash` (Keccak-256 of the hash input)
 * `proof <self> <n> (<enc> <pubkey> <signer> F_signed F_presented)×n` → `<verify_for> payees=<..> byself=<k>`
 * `exp <offset ns>` / `pexp <offset ns>…`            → `true|false` (timestamp = now + offset)
 * `hist <offA> <liveA> <paidA> <offB> <liveB> <paidB>` → `<A.historical_verify(B)> <A.is_newer_than(B)>`
@@ -128,6 +129,10 @@ def step (_ : Unit) (ws : List String) : Unit × String :=
       let q2 := mkQuote f2 kb sg
       let claimed := match kb with | [i] => i | _ => 0
       some s!"{showBool (checkSigned scheme ids q1 claimed)} {showBool (checkSigned scheme ids q2 claimed)} {showBool (q1.hashInput == q2.hashInput)}"
+    | "qhash" :: k :: sg :: rest => do
+      let k ← unhex k; let sg ← unhex sg
+      let (f, _) ← parseFields rest
+      some (hex (mkQuote f k sg).hash)
     | "proof" :: self :: n :: rest => do
       let self ← peerTok self; let n ← n.toNat?
       let (pr, _) ← parseEntries n rest
